@@ -4,8 +4,11 @@ import Splipy.Lemmas.C18Ifem
 import Splipy.Lemmas.C18IfemB
 import Splipy.Lemmas.C18Faces
 import Splipy.Lemmas.C18FacesB
+import Splipy.Lemmas.C18FacesC
 import Splipy.Lemmas.C18NumberingE
 import Splipy.Lemmas.C18Example
+import Splipy.Lemmas.C18Star
+import Splipy.Lemmas.C18Partition
 import Splipy.Lemmas.C18Cps
 import Splipy.Lemmas.C18Plans
 import Splipy.Lemmas.C18Witness
@@ -171,6 +174,74 @@ example : ∃ (plans : List PatchPlan) (P : List (NdArr (List ℚ))) (N : Array 
   · exact C18W.face_plan_run.1
   · exact C18W.face_plan_run.2.1
   · exact C18W.face_points_nonjunk
+
+/-- **The numbering clause under the decidable guard `starOK`.**  `starOK plans P` (a `Bool`, defined in
+    `Model/Numbering.lean` next to the algorithm) checks: the points `P` have the shapes of the number
+    arrays; the face links transport `P` onto itself; no point is the junk value; a face that is
+    read belongs to an earlier patch; the STAR condition — a point of a patch that occurs in an
+    earlier patch lies on a codimension-1 section the patch does not own (a face shared with an
+    earlier patch); no patch contains a point twice.  When it holds and `generate_cp_numbers`
+    returns `(N, ncps)`:
+    * every (patch, local index) carries a number in `0 … ncps-1`, every such number is used,
+    * two local nodes anywhere in the model carry the same number **iff** they are the same point.
+    The harness evaluates `starOK (plansOfObjs objs) (geomArrays objs)` on every generated
+    history and compares it with its own geometric classification of the history (tag
+    `cells:star-fails` when it is false); it is exactly the predicate that separates the witnesses:
+    true for the face-contact cubes, false for edge-only and corner-only contact (examples below).
+    So the numbering clause of C18 holds for the modelled algorithm precisely on the inputs where
+    `starOK` holds (here), and is refuted where the star condition fails
+    (`C18_numbering_counterexample`). -/
+theorem C18_numbering_star {γ : Type} [Inhabited γ] [DecidableEq γ] (plans : List PatchPlan) (P : List (NdArr γ))
+    (hok : starOK plans P = true)
+    (N : Array (NdArr ℤ)) (ncps : ℕ) (hnum : numberPlans plans = .ok (N, ncps)) :
+    (∀ k q, ValidPos plans k q → ∃ m : ℕ, m < ncps ∧ numAt N k q = m) ∧
+    (∀ m : ℕ, m < ncps → ∃ k q, ValidPos plans k q ∧ numAt N k q = m) ∧
+    (∀ k k' q q', ValidPos plans k q → ValidPos plans k' q' →
+      (numAt N k q = numAt N k' q' ↔ ptAt P k q = ptAt P k' q')) := by
+  obtain ⟨h1, h2, h3, h4, h5, h6⟩ := starOK_sound plans P hok
+  obtain ⟨r1, r2, -, r4⟩ := C18_numbering_partial plans P h1 h2 h3 h4 N ncps hnum
+  exact ⟨r1, r2, r4 h5 h6⟩
+
+/-- the guard on the witnesses, evaluated by the kernel on the histories themselves (plans of
+    `plansOfObjs`, points = geometric control points): it holds for the face-contact cubes and
+    fails for the edge-only and corner-only contact. -/
+example : starOK (plansOfObjs C18W.faceContact) (geomArrays C18W.faceContact) = true ∧
+    starOK (plansOfObjs C18W.edgeContact) (geomArrays C18W.edgeContact) = false ∧
+    starOK (plansOfObjs C18W.cornerContact) (geomArrays C18W.cornerContact) = false := C18W.star_witnesses
+
+/-- **The global numbering is a partition, and it is the one the interface maps generate.**
+    Guards (both `Bool`s defined next to the algorithm and evaluated by the harness on every
+    generated complex): `wellOrderedB` — a face that is read belongs to an earlier patch (first-come
+    ownership); `noJunkB` — transporting the all-`true` arrays through the face links yields the
+    all-`true` arrays, i.e. no index outside an array is ever read.  Then, for plan lists of ANY
+    size (induction over the plan list and the faces of each plan), after `generate_cp_numbers`
+    returned `(N, ncps)`:
+    * every (patch, local index) carries exactly one global number (`numAt` is a function) and it
+      lies in `0 … ncps-1`; every number of `0 … ncps-1` is carried by some local node;
+    * two local nodes carry the same number **iff** they are identified by the interface maps:
+      `Forced plans k q k' q'` — they receive the same label under EVERY labelling of all control
+      points (of any type) that the face links, as `read_cp_numbers` applies them, transport onto
+      itself, i.e. they lie in the same class of the equivalence closure of the identifications
+      made by the links.  (`⇐` uses that the final numbers themselves are such a labelling: the
+      read phase is idempotent, `readAllG_idem`, and commutes with every relabelling when no junk is
+      read, `readAllG_map_any`.)
+    No star hypothesis is needed for this statement; the star condition (`starOK`,
+    `C18_numbering_star`) is exactly what makes `Forced` coincide with "same geometric point". -/
+theorem C18_numbering_partition (plans : List PatchPlan) (hord : wellOrderedB plans = true)
+    (hnj : noJunkB plans = true) (N : Array (NdArr ℤ)) (ncps : ℕ) (hnum : numberPlans plans = .ok (N, ncps)) :
+    (∀ k q, ValidPos plans k q → ∃ m : ℕ, m < ncps ∧ numAt N k q = m) ∧
+    (∀ m : ℕ, m < ncps → ∃ k q, ValidPos plans k q ∧ numAt N k q = m) ∧
+    (∀ k k' q q', ValidPos plans k q → ValidPos plans k' q' →
+      (numAt N k q = numAt N k' q' ↔ Forced plans k q k' q')) :=
+  ⟨(numbering_range plans (wellOrdered_of_B _ hord) hnj N ncps hnum).1,
+   (numbering_range plans (wellOrdered_of_B _ hord) hnj N ncps hnum).2,
+   numbering_partition plans (wellOrdered_of_B _ hord) hnj N ncps hnum⟩
+
+/-- the guards hold on the witnesses (also on the edge-contact pair, where the star condition
+    fails): kernel evaluation. -/
+example : wellOrderedB (plansOfObjs C18W.edgeContact) = true ∧ noJunkB (plansOfObjs C18W.edgeContact) = true ∧
+    wellOrderedB (plansOfObjs C18W.faceContact) = true ∧ noJunkB (plansOfObjs C18W.faceContact) = true :=
+  C18W.guards_witnesses
 
 /-- **The catalogue's numbering is the history's numbering, under the ownership invariant.**
     `PlansInv sm objs` states precisely what the numbering needs from the catalogue state `sm`
@@ -375,6 +446,33 @@ theorem C18_openfoam_order (faces : List Face) :
     fun e he => ofoam_entry_block o.faces e he,
     fun i nm h => ofoam_entry_cover o.faces i nm h,
     ofoam_entries_distinct o.faces hsorted, ofoam_declared o.faces hsorted⟩
+
+/-- **Cells per face, and the rows of the OpenFOAM files, for models of any size.**
+    Whenever `SplineModel.faces()` returns (any number of patches, any cell counts — induction over
+    the top nodes), every face record has either two cells with `owner < neighbour` or one cell
+    (`neighbour = -1`).  If moreover the faces without a name are exactly the faces with a
+    neighbour (every boundary face named — what `OpenFOAM.write` presupposes: it takes
+    `name is None` for "internal"), then the rows the writer emits are
+    `two-cell faces ++ one-cell faces`: the first `nInternalFaces` rows are the faces with two
+    cells, `owner < neighbour`, in lexicographic (owner, neighbour) order; the remaining rows have
+    one cell, and within one boundary name the owner column is non-decreasing (with
+    `C18_openfoam_order`: each name one contiguous block `startFace … startFace+nFaces-1`).
+
+    PARTIAL: the guard `hnamed` remains (an unnamed boundary face is written among the internal
+    faces with neighbour `-1`; interface nodes carry no name in the histories the harness builds);
+    that every geometric cell face of a multi-patch model occurs exactly once is proved for one
+    structured patch (`C18_faces_partial`) and checked by the oracle for multi-patch models. -/
+theorem C18_openfoam_cells_partial (ktol : ℚ) (r : Numbered) (fs : List Face) (h : r.faces ktol = .ok fs) :
+    (∀ f ∈ fs, f.owner < f.neighbor ∨ f.neighbor = -1) ∧
+    ((∀ f ∈ fs, (f.name = none ↔ f.neighbor ≠ -1)) →
+      let o := ofoamWrite fs
+      o.faces = o.faces.take o.ninternal ++ o.faces.drop o.ninternal ∧
+      (∀ f ∈ o.faces.take o.ninternal, f.name = none ∧ f.neighbor ≠ -1 ∧ f.owner < f.neighbor) ∧
+      (∀ f ∈ o.faces.drop o.ninternal, f.name ≠ none ∧ f.neighbor = -1) ∧
+      (o.faces.take o.ninternal).Pairwise
+        (fun a b => a.owner < b.owner ∨ (a.owner = b.owner ∧ a.neighbor ≤ b.neighbor)) ∧
+      (o.faces.drop o.ninternal).Pairwise (fun a b => a.name = b.name → a.owner ≤ b.owner)) :=
+  ⟨faces_two_or_one ktol r fs h, fun hnamed => ofoam_blocks fs hnamed (faces_two_or_one ktol r fs h)⟩
 
 /-! ## faces -/
 
